@@ -87,6 +87,8 @@ mutual
     | dot (inner : Simple)                             -- `. file`: the file holds one simple command
     | dotSyn                                           -- `. file`: the file does not parse
     | dotIoErr                                         -- `. file`: the file opens but cannot be read (a directory)
+    | evalEmpty                                        -- `eval ''` / `. file`: the input holds no command (it may hold
+                                                       -- blank and comment lines)
     | execFail (interactiveOption : Bool)              -- `exec no_such_command`; the value of the `Interactive`
                                                        -- option travels in the node (`St` has no such field)
   /-- `yash_semantics::command::search::Target`, or no field at all -/
@@ -159,6 +161,10 @@ mutual
       | r => (s1, s1.status, r)
     | .dotSyn => (s, s.status, handleParserError true true)
     | .dotIoErr => (s, s.status, handleParserError false true)
+    | .evalEmpty =>
+      -- `read_eval_loop_impl`: only lines without a command, then `Ok(None)` with `executed = false`:
+      -- `env.exit_status = SUCCESS` (= `readEvalLoop … false [.cmds [], …]`, theorem `blank_script_leaves_zero`)
+      ({ s with status := SUCCESS }, SUCCESS, .continue_)
     | .execFail i =>
       -- `exec::main`: `if !env.is_interactive() { result.set_divert(Break(Abort(None))) }`, then the search fails:
       -- `NOT_FOUND`; `Env::is_interactive` = the option is on and no `Subshell` frame is on the stack
@@ -310,8 +316,13 @@ def readEvalLoop (interactive : Bool) (fuel : Nat) (s : St) (executed : Bool) : 
         | .break_ (.interrupt e) => ((match e with | some e => { x.1 with status := e } | none => x.1), .continue_)
         | r => (x.1, r)
       else x
+    -- since 4afb140: `executed |= !command.0.is_empty()` for a command line, `executed = true` for a parser error — a
+    -- line that holds no command (blank, comment) does not count as an executed command
+    let executed' := match line with
+      | .cmds l => executed || !l.isEmpty
+      | .syntaxError => true
     match y.2 with
-    | .continue_ => readEvalLoop interactive fuel y.1 true rest
+    | .continue_ => readEvalLoop interactive fuel y.1 executed' rest
     | r => (y.1, r)
 
 /-- `run_trap` for the EXIT condition + `run_exit_trap`'s `apply_result`; the action is one command line -/
